@@ -12,7 +12,9 @@ import (
 
 	"github.com/openconfig/gribigo/aft"
 	"github.com/openconfig/gribigo/server"
+	"google.golang.org/grpc/status"
 	"google.golang.org/protobuf/proto"
+	"google.golang.org/protobuf/types/known/anypb"
 
 	spb "github.com/openconfig/gribi/v1/proto/service"
 )
@@ -37,6 +39,9 @@ var faultKinds = []string{
 	// Get loses exactly one table; every other table is complete
 	"stale_get_nh_table",  // Get never returns next-hop entries
 	"stale_get_nhg_table", // Get never returns next-hop-group entries
+	// judged by the harness alone (numbers from 16 on are unknown to Compliance.v: model_pass answers None)
+	"wrong_reject_reason",            // a Modify RPC that ends with a status carrying ModifyRPCErrorDetails ends with the same code and message and a different reason
+	"leak_results_to_other_sessions", // every response with AFT results is also sent to every other open Modify stream
 }
 
 func faultNumber(kind string) int {
@@ -60,6 +65,98 @@ type faultServer struct {
 	// nonprimary: the injected announcement and the re-stamped request that follows it are one step of the faulty
 	// server: no other session's pair may come between them (otherwise the fault shows or not by scheduling)
 	pairMu sync.Mutex
+
+	// leak_results_to_other_sessions: the Modify streams that are open
+	openMu sync.Mutex
+	open   map[*faultStream]bool
+}
+
+// leak_results_to_other_sessions sends every response with AFT results late, in three steps: it waits leakSettle
+// (a stream that a client opened before the operation was sent has reached its handler by then: the compliance test
+// opens the second client's stream and sends the first client's operations without waiting for anything in
+// between), writes a copy to every other open stream, and, if there was one, waits leakDelay before it writes the
+// originator's own response (the other clients have read their copy by the time the originator, and the test that
+// waits for it, goes on).
+const (
+	leakSettle = 150 * time.Millisecond
+	leakDelay  = 150 * time.Millisecond
+)
+
+func (f *faultServer) register(st *faultStream) {
+	f.openMu.Lock()
+	if f.open == nil {
+		f.open = map[*faultStream]bool{}
+	}
+	f.open[st] = true
+	f.openMu.Unlock()
+}
+
+// unregister removes st once its RPC is over; nothing is written to it afterwards.
+func (f *faultServer) unregister(st *faultStream) {
+	f.openMu.Lock()
+	delete(f.open, st)
+	f.openMu.Unlock()
+	st.sendMu.Lock()
+	st.over = true
+	st.sendMu.Unlock()
+}
+
+func (f *faultServer) others(me *faultStream) []*faultStream {
+	f.openMu.Lock()
+	defer f.openMu.Unlock()
+	var out []*faultStream
+	for st := range f.open {
+		if st != me {
+			out = append(out, st)
+		}
+	}
+	return out
+}
+
+// otherReason maps every reason to another valid one, never to itself.
+func otherReason(r spb.ModifyRPCErrorDetails_Reason) spb.ModifyRPCErrorDetails_Reason {
+	switch r {
+	case spb.ModifyRPCErrorDetails_UNSUPPORTED_PARAMS:
+		return spb.ModifyRPCErrorDetails_MODIFY_NOT_ALLOWED
+	case spb.ModifyRPCErrorDetails_MODIFY_NOT_ALLOWED:
+		return spb.ModifyRPCErrorDetails_PARAMS_DIFFER_FROM_OTHER_CLIENTS
+	case spb.ModifyRPCErrorDetails_PARAMS_DIFFER_FROM_OTHER_CLIENTS:
+		return spb.ModifyRPCErrorDetails_ELECTION_ID_IN_ALL_PRIMARY
+	case spb.ModifyRPCErrorDetails_ELECTION_ID_IN_ALL_PRIMARY:
+		return spb.ModifyRPCErrorDetails_UNSUPPORTED_PARAMS
+	}
+	return spb.ModifyRPCErrorDetails_UNSUPPORTED_PARAMS // UNKNOWN, or a value outside the enum
+}
+
+// wrongReason returns err with the reason of every ModifyRPCErrorDetails it carries replaced (same code, same
+// message, every other detail unchanged). An error without such details is returned as it is.
+func wrongReason(err error) error {
+	if err == nil {
+		return nil
+	}
+	s, ok := status.FromError(err)
+	if !ok {
+		return err
+	}
+	p := s.Proto() // a copy
+	changed := false
+	for i, d := range p.GetDetails() {
+		m := &spb.ModifyRPCErrorDetails{}
+		if !d.MessageIs(m) || d.UnmarshalTo(m) != nil {
+			continue
+		}
+		m.Reason = otherReason(m.GetReason())
+		a, aerr := anypb.New(m)
+		if aerr != nil {
+			continue
+		}
+		p.Details[i] = a
+		changed = true
+	}
+	if !changed {
+		return err
+	}
+	return status.FromProto(p).Err()
 }
 
 func (f *faultServer) setWinner(st *faultStream) { f.winMu.Lock(); f.winner = st; f.winMu.Unlock() }
@@ -76,6 +173,13 @@ func (f *faultServer) Modify(ms spb.GRIBI_ModifyServer) error {
 			f.pairMu.Unlock()
 		}
 	}()
+	switch f.kind {
+	case "wrong_reject_reason":
+		return wrongReason(f.s.Modify(st))
+	case "leak_results_to_other_sessions":
+		f.register(st)
+		defer f.unregister(st)
+	}
 	return f.s.Modify(st)
 }
 
@@ -144,7 +248,8 @@ type faultStream struct {
 	spb.GRIBI_ModifyServer
 	f *faultServer
 
-	sendMu sync.Mutex // the wrapper itself sends (accept_repeated_params), concurrently with the server's sender
+	sendMu sync.Mutex // the wrapper itself sends (accept_repeated_params, leaked copies), concurrently with the server's sender
+	over   bool       // leak_results_to_other_sessions: the RPC has ended (under sendMu)
 
 	// only touched by the server's single receiving goroutine
 	queued     *spb.ModifyRequest
@@ -186,6 +291,16 @@ func sameID(a, b *spb.Uint128) bool {
 func (st *faultStream) rawSend(r *spb.ModifyResponse) error {
 	st.sendMu.Lock()
 	defer st.sendMu.Unlock()
+	return st.GRIBI_ModifyServer.Send(r)
+}
+
+// leakSend writes r to st, unless st's RPC is over.
+func (st *faultStream) leakSend(r *spb.ModifyResponse) error {
+	st.sendMu.Lock()
+	defer st.sendMu.Unlock()
+	if st.over {
+		return nil
+	}
 	return st.GRIBI_ModifyServer.Send(r)
 }
 
@@ -398,6 +513,17 @@ func (st *faultStream) Send(r *spb.ModifyResponse) error {
 			if len(kept) == 0 {
 				return nil
 			}
+		}
+	case "leak_results_to_other_sessions":
+		if len(r.GetResult()) > 0 {
+			time.Sleep(leakSettle)
+			if others := st.f.others(st); len(others) > 0 {
+				for _, o := range others {
+					o.leakSend(proto.Clone(r).(*spb.ModifyResponse))
+				}
+				time.Sleep(leakDelay)
+			}
+			return st.leakSend(r) // the client may have closed the stream in the meantime
 		}
 	}
 	return st.rawSend(r)
